@@ -1298,6 +1298,9 @@ func (e *Exec) execTypeAssert(x *ssa.TypeAssert, st *State) {
 	if _, isIface := x.AssertedType.Underlying().(*types.Interface); isIface {
 		pred := c.implementsPred(x.AssertedType)
 		ok = fmt.Sprintf("(%s (if_tag %s))", pred, v.T)
+		if it := x.AssertedType.Underlying().(*types.Interface); it.NumMethods() == 0 && !it.IsComparable() {
+			ok = fmt.Sprintf("(not (= (if_tag %s) 0))", v.T) // every non-nil value satisfies the empty interface
+		}
 		res = Val{T: v.T, S: SIface, GT: x.AssertedType}
 		if x.CommaOk {
 			res.T = fmt.Sprintf("(ite %s %s %s)", ok, v.T, c.zero(x.AssertedType))
